@@ -48,7 +48,7 @@ def job_for(ctx, contract, unit, cases, observe=None, shapes=None):
         "cases": cases, "observe": observe or sorted(_path_expr(p) for p in types if "." in p or p in params),
         "patches": contract.native.get("patches", {}), "spec_funs": contract.native.get("spec_funs", {}),
         "class_fields": contract.class_fields, "construct": contract.native.get("construct", []), "backrefs": contract.backrefs, "native_defaults": contract.native.get("defaults", {}),
-        "yield_to": contract.yield_to, "record_list": contract.native.get("record_list"), "record_lists": contract.native.get("record_lists", []),
+        "yield_to": contract.yield_to, "record_list": contract.native.get("record_list"), "record_lists": contract.native.get("record_lists", []), "result_records": contract.native.get("result_records", False),
         "int_window": contract.native.get("int_window", [-2, 16]),
     }
 
